@@ -1,0 +1,5 @@
+//go:build !verif
+
+package repository
+
+func verifRepoHook(*GoGitRepo) {}
